@@ -52,14 +52,19 @@ ValidStack(f, s, p, k) ==
                   /\ s \in StackedSpellings
                   /\ p \in {"on", "before", "header", "body"}
 
-VARIABLES form, spelling, placement, stack, done
-vars == <<form, spelling, placement, stack, done>>
-Init == form = "sameLine" /\ spelling = "fullId" /\ placement = "on" /\ stack = "none" /\ done = FALSE
-Choose(f, s, p, k) == /\ ~done /\ ValidPlacement(f, p) /\ (s \in ListSpellings => f = "sameLine") /\ ValidStack(f, s, p, k)
-                      /\ form' = f /\ spelling' = s /\ placement' = p /\ stack' = k /\ done' = TRUE
-Next == \E f \in Forms, s \in Spellings, p \in Placements, k \in Stacks : Choose(f, s, p, k)
+\* lead: what stands between the code and the directive on a same-line directive's line: nothing, or another
+\* tool's marker comment (`x = 37  # pragma: no cover  # thailint: ignore[rule]`, `// eslint-disable-line  // thailint: ...`)
+Leads == {"none", "afterComment"}
+ValidLead(f, s, k, ld) == ld # "none" => f = "sameLine" /\ k = "none" /\ s \in StackedSpellings
+
+VARIABLES form, spelling, placement, stack, lead, done
+vars == <<form, spelling, placement, stack, lead, done>>
+Init == form = "sameLine" /\ spelling = "fullId" /\ placement = "on" /\ stack = "none" /\ lead = "none" /\ done = FALSE
+Choose(f, s, p, k, ld) == /\ ~done /\ ValidPlacement(f, p) /\ (s \in ListSpellings => f = "sameLine") /\ ValidStack(f, s, p, k) /\ ValidLead(f, s, k, ld)
+                      /\ lead' = ld /\ form' = f /\ spelling' = s /\ placement' = p /\ stack' = k /\ done' = TRUE
+Next == \E f \in Forms, s \in Spellings, p \in Placements, k \in Stacks, ld \in Leads : Choose(f, s, p, k, ld)
 Spec == Init /\ [][Next]_vars
-Emit == done => PrintT(<<"CASE", ToJson([form |-> form, spelling |-> spelling, placement |-> placement, stack |-> stack])>>)
+Emit == done => PrintT(<<"CASE", ToJson([form |-> form, spelling |-> spelling, placement |-> placement, stack |-> stack, lead |-> lead])>>)
 
 \* ---- layer A ----------------------------------------------------------------------------------
 \* d.tlinter / d.tsub: the rule of the violation the directive was written for;
